@@ -210,6 +210,14 @@ func (tt *TermTable) realBounds1(t *Term) (float64, float64, bool) {
 			a, b := l0/d, h0/d
 			return math.Min(a, b), math.Max(a, b), true
 		}
+	case "div":
+		if len(t.args) == 2 && t.args[1].IsConst() {
+			l0, h0, ok0 := arg(0)
+			d, _, ok1 := arg(1)
+			if ok0 && ok1 && d > 0 {
+				return math.Floor(l0 / d), math.Floor(h0 / d), true
+			}
+		}
 	case "mod":
 		if len(t.args) == 2 && t.args[1].IsConst() {
 			d, _, ok := arg(1)
@@ -295,10 +303,19 @@ func (tt *TermTable) shadowOf1(t *Term) shadow {
 			return shadow{}
 		}
 		s := tt.shadowOf(t.args[0])
-		if !s.ok || !fitsSigned(s.lo, s.hi, h+1) {
+		if !s.ok {
 			return shadow{}
 		}
-		return s
+		if fitsSigned(s.lo, s.hi, h+1) {
+			return s
+		}
+		if h+1 > 50 {
+			return shadow{}
+		}
+		// truncation that may change the value: two's complement wrap-around, exactly
+		half, full := int64(1)<<uint(h), int64(1)<<uint(h+1)
+		iv := tt.intSub(tt.mk("mod", SInt, 0, tt.intAdd(s.iv, tt.IntC(half)), tt.IntC(full)), tt.IntC(half))
+		return shadow{iv: iv, lo: -half, hi: half - 1, ok: true, fromInt: s.fromInt}
 	case t.op == "bvadd" || t.op == "bvsub":
 		a, b := tt.shadowOf(t.args[0]), tt.shadowOf(t.args[1])
 		if !a.ok || !b.ok {
@@ -314,6 +331,28 @@ func (tt *TermTable) shadowOf1(t *Term) shadow {
 			return a
 		}
 		return shadow{iv: tt.intSub(tt.IntC(0), a.iv), lo: -a.hi, hi: -a.lo, ok: true, fromInt: a.fromInt}
+	case (t.op == "bvlshr" || t.op == "bvashr") && t.args[1].IsConst():
+		k := t.args[1].u
+		a := tt.shadowOf(t.args[0])
+		if !a.ok || k >= uint64(w) || k > 50 || w > 51 && a.lo < 0 && t.op == "bvlshr" {
+			return shadow{}
+		}
+		d := int64(1) << k
+		if t.op == "bvashr" || a.lo >= 0 {
+			// floor division (SMT div rounds towards minus infinity for a positive divisor)
+			fl := func(x int64) int64 {
+				q := x / d
+				if x%d != 0 && x < 0 {
+					q--
+				}
+				return q
+			}
+			return shadow{iv: tt.mk("div", SInt, 0, a.iv, tt.IntC(d)), lo: fl(a.lo), hi: fl(a.hi), ok: true, fromInt: a.fromInt}
+		}
+		// logical shift of a possibly negative value: shift its unsigned reading
+		full := int64(1) << uint(w)
+		u := tt.mk("mod", SInt, 0, a.iv, tt.IntC(full))
+		return shadow{iv: tt.mk("div", SInt, 0, u, tt.IntC(d)), lo: 0, hi: (full - 1) / d, ok: true, fromInt: a.fromInt}
 	case t.op == "bvmul":
 		x, y := t.args[0], t.args[1]
 		if y.IsConst() {
